@@ -74,7 +74,7 @@ def run_workers(prop, tier, seed, ncases, nworkers, timeout, budget, tmpdir, exp
         shards = [",".join(str(i) for i in explicit)]
     else:
         nworkers = max(1, min(nworkers, ncases))
-        shards = [f"{k}:{ncases}:{nworkers}" for k in range(nworkers)]
+        shards = [f"mix:{k}:{ncases}:{nworkers}" for k in range(nworkers)]
     for k, shard in enumerate(shards):
         out = os.path.join(tmpdir, f"w{k}.json")
         log = open(os.path.join(tmpdir, f"w{k}.log"), "w")
@@ -132,7 +132,8 @@ def run_ambient(prop, files, kexpr, timeout, tmpdir):
 def merge(results):
     m = {
         "cases": 0, "evals": collections.Counter(), "events": collections.Counter(),
-        "vio_counts": collections.Counter(), "violations": [], "sigs": {},
+        "vio_counts": collections.Counter(), "unlisted_counts": collections.Counter(),
+        "known_counts": collections.Counter(), "violations": [], "sigs": {},
         "samples": [], "anchors": collections.defaultdict(set), "skipped": 0,
         "notes": collections.Counter(), "attached": None,
     }
@@ -141,6 +142,8 @@ def merge(results):
         m["evals"].update(r.get("evals", {}))
         m["events"].update(r.get("events", {}))
         m["vio_counts"].update(r.get("vio_counts", {}))
+        m["unlisted_counts"].update(r.get("unlisted_counts", {}))
+        m["known_counts"].update(r.get("known_counts", {}))
         m["notes"].update(r.get("notes", {}))
         m["violations"] += r.get("violations", [])
         for k, v in r.get("sigs", {}).items():
@@ -224,19 +227,19 @@ def main(argv=None):
     m["violations"] = [v for v in m["violations"] if owned(v["monitor"])]
     m["vio_counts"] = collections.Counter(
         {k: c for k, c in m["vio_counts"].items() if owned(k)})
+    m["unlisted_counts"] = collections.Counter(
+        {k: c for k, c in m["unlisted_counts"].items() if owned(k)})
 
-    known = verdict.load_known()
-    unlisted, known_seen = [], collections.OrderedDict()
-    for v in m["violations"]:
-        f = verdict.classify(v, known)
-        if f is not None:
-            known_seen.setdefault(f["id"], [f, 0])[1] += 1
-        else:
-            unlisted.append(v)
-    # violations beyond the stored cap: count by monitor
-    stored = collections.Counter(v["monitor"] for v in m["violations"])
-    overflow = {k: c - stored.get(k, 0) for k, c in m["vio_counts"].items()
-                if c > stored.get(k, 0)}
+    # every violation was classified inside its worker (dfmon.verdict): a listed known
+    # finding, or unlisted.  Stored witnesses are a sample; the counts are complete.
+    known = {f["id"]: f for f in verdict.load_known()}
+    unlisted = [v for v in m["violations"] if not v.get("known_finding")]
+    known_seen = collections.OrderedDict(
+        (fid, [known.get(fid, {"id": fid, "what": "?"}), c])
+        for fid, c in sorted(m["known_counts"].items())
+        if known.get(fid, {}).get("property") == prop)
+    overflow = {}
+    n_unlisted = sum(m["unlisted_counts"].values())
 
     replay_paths = []
     if unlisted:
@@ -250,7 +253,7 @@ def main(argv=None):
                                 f"{prop}_{tier}_s{seed}_{safe}.json")
             cases = sorted({v["case"] for v in vs if v.get("case") is not None})[:20]
             json.dump({"property": prop, "tier": tier, "seed": seed, "monitor": mon,
-                       "cases": cases, "count": m["vio_counts"].get(mon, len(vs)),
+                       "cases": cases, "count": m["unlisted_counts"].get(mon, len(vs)),
                        "violations": vs[:10], **repo_state()},
                       open(path, "w"), indent=1)
             replay_paths.append((mon, path, len(vs)))
@@ -266,7 +269,7 @@ def main(argv=None):
         "monitor_evaluations": dict(sorted(m["evals"].items())),
         "events": dict(sorted(m["events"].items())),
         "anchor_lines_hit": anchors.anchor_report(prop, m["anchors"]),
-        "violations_by_monitor": dict(m["vio_counts"]),
+        "violations_by_monitor": dict(m["unlisted_counts"]),
         "foreign_monitor_violations": foreign,
         "known_findings_seen": {k: c for k, (f, c) in known_seen.items()},
         "inconclusive_reasons": inconclusive,
@@ -287,7 +290,7 @@ def main(argv=None):
         "property_id": prop, "tier": tier, "seed": seed, "level": meta["level"],
         "coverage": coverage, "assumptions": meta.get("assumptions", []),
         "wall_s": round(time.time() - t0, 2),
-        "violations": len(unlisted) + sum(overflow.values()),
+        "violations": n_unlisted,
     }
     if explicit is None and not os.environ.get("DFMON_NO_EVIDENCE"):
         os.makedirs(os.path.join(dfmon.VERIF_ROOT, "evidence"), exist_ok=True)
@@ -304,7 +307,7 @@ def main(argv=None):
     if unlisted:
         for mon, path, n in replay_paths:
             print(f"VIOLATION property={prop} replay={path}  monitor={mon} count="
-                  f"{m['vio_counts'].get(mon, n)}")
+                  f"{m['unlisted_counts'].get(mon, n)}")
         v = unlisted[0]
         print("first witness:", json.dumps(v, indent=1)[:3000])
         return 1
